@@ -8,13 +8,33 @@
 //        implementation alone (a TEST, not a proof): with the library's tolerance f64::EPSILON and 20
 //        iterations, t is not NaN, lies in [-pi, pi], and if strictly inside no other t of a 20001-point grid
 //        refined by golden-section search is closer by more than 1e-9 m.  Prints `holds` / `fails <detail>`.
+//        Labels end in `:t-interior` / `:t-at-pi` (the minimality clause applies only strictly inside (-pi, pi));
+//        the generator class `rel:interior/...` (own PRNG stream) keeps the brute-force minimiser strictly interior
+//        (checked: |t_brute| < 3.1, else the label says `interior-not-confirmed`).
 //   relkf-<class> <9 params>   the same oracle on inputs of a class that is known to fail (none at present)
-//   relkt <n> <r phi z>*n      through the public API: Track::try_from(cluster) -> t_inner() / t_outer() must be the
+//   relkt <n> <r phi z>*n | <k> <x0 y0 z0 r phi0 h>*k
+//                              through the public API: Track::try_from(cluster) -> t_inner() / t_outer() must be the
 //                              closest-approach parameters of the innermost / outermost point (same oracle, with the
-//                              tolerance and iteration count the LIBRARY passes)
-//   relkc <n> <r phi z>*n      the same, hook-free: the clusters are those cluster_spacepoints finds in the point set
-//   relkv <k> <x0 y0 z0 r phi0 h t_inner t_outer>*k     find_vertices -> every (track, t) of the primary vertex:
-//                              t is the closest-approach parameter of that track to the vertex position
+//                              tolerance and iteration count the LIBRARY passes).  Trailer: the helix the library fitted
+//                              (k = 1) or k = 0 (no track), written by the generator
+//   relkc <n> <r phi z>*n | <k> <x0 y0 z0 r phi0 h>*k
+//                              the same, hook-free: the clusters are those cluster_spacepoints finds in the point set;
+//                              trailer: the helices of all tracks fitted, in cluster order
+//   relkv <n> <x0 y0 z0 r phi0 h t_inner t_outer>*n | <k> <x0 y0 z0 r phi0 h>*k
+//                              find_vertices -> every (track, t) of the primary vertex: t is the closest-approach
+//                              parameter of that track to the vertex position; trailer: the helices of the primary
+//                              vertex's tracks in the order find_vertices lists them (k = 0: no primary vertex)
+//   Observation of relkt / relkc / relkv (tracks taken in trailer order):
+//        `fails <detail>`                  the oracle fails on a track INSIDE the quantifier of C16 (first such track), or
+//                                          the library panics, or (replay only) the helices recomputed from the payload
+//                                          are not bit for bit those of the trailer (`fails helix-params-differ-from-case-line`)
+//        `skipped out-of-domain <bound>`   otherwise, when some track lies OUTSIDE the quantifier; <bound> is that of the
+//                                          first such track: nonfinite-params | negative-radius | radius<0.03m |
+//                                          radius>5m | centre | pitch (first violated, in this order; see domain_bound)
+//        `holds`                           otherwise (every track inside the quantifier, oracle satisfied; also k = 0)
+//   The model runner (ocaml/run_c16.ml) evaluates the same domain predicate on the trailer's bit patterns and prints
+//   `skipped out-of-domain <bound>` / `holds`: an out-of-domain helix is an explicit, counted outcome, never `holds`.
+//   For out-of-domain helices the oracle is still run; its result goes into the LABEL only (`out-of-domain:<bound>:<class>`).
 use crate::util::*;
 use crate::c14::{case_points, family, parse_floats, points_of, track_params, P3};
 use alpha_g_physics::reconstruction::{
@@ -137,65 +157,236 @@ pub fn brute_min(hp: [f64; 6], q: [f64; 3]) -> (f64, f64) {
     best
 }
 
-/// the property oracle for a reported t, on the implementation alone
-pub fn oracle_t(hp: [f64; 6], p: SpacePoint, t: f64) -> String {
+/// what the brute-force oracle finds for a reported t
+#[derive(Clone, Copy)]
+pub enum Verdict {
+    Nan,
+    OutOfRange,
+    /// t is exactly -pi or pi: exempt from the minimality clause by the property text
+    AtPi,
+    /// t strictly inside (-pi, pi): distance at t, brute-force minimiser and its distance
+    Interior { d_impl: f64, tb: f64, db: f64 },
+}
+
+pub fn verdict(hp: [f64; 6], p: SpacePoint, t: f64) -> Verdict {
     if t.is_nan() {
-        return "fails nan".to_string();
+        return Verdict::Nan;
     }
     if !(t >= -PI && t <= PI) {
-        return format!("fails out-of-range t={}", bits(t));
+        return Verdict::OutOfRange;
     }
     if t > -PI && t < PI {
         let q = [p.x().get::<meter>(), p.y().get::<meter>(), p.z.get::<meter>()];
         let d_impl = dist(hp, q, t);
         let (tb, db) = brute_min(hp, q);
-        if !(d_impl <= db + 1e-9) {
-            return format!(
-                "fails not-closest t={} d={:e} t_brute={} d_brute={:e} excess={:e}",
-                bits(t),
-                d_impl,
-                bits(tb),
-                db,
-                d_impl - db
-            );
-        }
+        return Verdict::Interior { d_impl, tb, db };
     }
-    "holds".to_string()
+    Verdict::AtPi
+}
+
+/// the observation of the property oracle for a reported t
+fn verdict_obs(v: Verdict, t: f64) -> String {
+    match v {
+        Verdict::Nan => "fails nan".to_string(),
+        Verdict::OutOfRange => format!("fails out-of-range t={}", bits(t)),
+        Verdict::Interior { d_impl, tb, db } if !(d_impl <= db + 1e-9) => format!(
+            "fails not-closest t={} d={:e} t_brute={} d_brute={:e} excess={:e}",
+            bits(t),
+            d_impl,
+            bits(tb),
+            db,
+            d_impl - db
+        ),
+        _ => "holds".to_string(),
+    }
+}
+
+/// histogram class of the reported t (how often the minimality clause is exercised)
+fn t_class(v: Verdict) -> &'static str {
+    match v {
+        Verdict::Nan => "t-nan",
+        Verdict::OutOfRange => "t-out-of-range",
+        Verdict::AtPi => "t-at-pi",
+        Verdict::Interior { .. } => "t-interior",
+    }
+}
+
+/// the property oracle, on the implementation alone: (observation, verdict; None = panic)
+fn oracle_full(hp: [f64; 6], sp: [f64; 3]) -> (String, Option<Verdict>) {
+    let r = catch(move || {
+        let p = spoint(sp[0], sp[1], sp[2]);
+        let t = verif_helix_closest_t(hp, p, f64::EPSILON, 20);
+        let v = verdict(hp, p, t);
+        (verdict_obs(v, t), Some(v))
+    });
+    r.unwrap_or_else(|| ("fails panic".to_string(), None))
 }
 
 /// the property oracle, on the implementation alone
 pub fn oracle(hp: [f64; 6], sp: [f64; 3]) -> String {
-    let r = catch(move || {
-        let p = spoint(sp[0], sp[1], sp[2]);
-        let t = verif_helix_closest_t(hp, p, f64::EPSILON, 20);
-        oracle_t(hp, p, t)
-    });
-    r.unwrap_or_else(|| "fails panic".to_string())
+    oracle_full(hp, sp).0
 }
 
-/// helix parameters inside the quantifier of C16
-fn in_domain(hp: [f64; 6]) -> bool {
-    // exploration switch: C16_NO_DOMAIN=1 applies the oracle to every fitted helix (reported as out-of-domain observations)
-    if std::env::var_os("C16_NO_DOMAIN").is_some() {
-        return true;
+// ------------------------------------------------------------------------------------------------
+// the quantifier of C16 on helices the LIBRARY produces (relkt / relkc / relkv)
+// ------------------------------------------------------------------------------------------------
+/// None = helix parameters inside the quantifier of C16 (centre within +-3 m, radius 0.03-5 m, |pitch| <= 1e2 m,
+/// all six parameters finite); otherwise the FIRST violated bound in this fixed order.  ocaml/run_c16.ml evaluates
+/// the same predicate, in the same order, on the bit patterns of the case line's trailer.
+pub fn domain_bound(hp: [f64; 6]) -> Option<&'static str> {
+    if !hp.iter().all(|x| x.is_finite()) {
+        return Some("nonfinite-params");
     }
-    hp[0].abs() <= 3.0 && hp[1].abs() <= 3.0 && hp[2].abs() <= 3.0 && hp[3] >= 0.03 && hp[3] <= 5.0 && hp[5].abs() <= 1e2
+    if hp[3] < 0.0 {
+        return Some("negative-radius");
+    }
+    if hp[3] < 0.03 {
+        return Some("radius<0.03m");
+    }
+    if hp[3] > 5.0 {
+        return Some("radius>5m");
+    }
+    if hp[0].abs() > 3.0 || hp[1].abs() > 3.0 || hp[2].abs() > 3.0 {
+        return Some("centre");
+    }
+    if hp[5].abs() > 1e2 {
+        return Some("pitch");
+    }
+    None
 }
 
-fn domain_class(hp: [f64; 6]) -> &'static str {
-    if in_domain(hp) {
-        "track"
-    } else if hp[3] < 0.0 {
-        "track-outside-domain:negative-radius"
-    } else if hp[3] > 5.0 {
-        "track-outside-domain:radius>5m"
-    } else {
-        "track-outside-domain:other"
+/// coarse class (label only, never an observation) of what the oracle finds on a helix OUTSIDE the quantifier
+fn excess_rank(v: Verdict) -> (u8, f64) {
+    match v {
+        Verdict::AtPi => (0, 0.0),
+        Verdict::Interior { d_impl, db, .. } => {
+            let e = d_impl - db;
+            if d_impl <= db + 1e-9 {
+                (1, e)
+            } else if e.is_nan() {
+                (5, e)
+            } else if e > 1e-3 {
+                (4, e)
+            } else if e > 1e-6 {
+                (3, e)
+            } else {
+                (2, e)
+            }
+        }
+        Verdict::OutOfRange => (6, f64::NAN),
+        Verdict::Nan => (7, f64::NAN),
     }
+}
+const EXCESS_CLASS: [&str; 8] = [
+    "t-at-pi",
+    "closest",
+    "not-closest>1e-9m",
+    "not-closest>1e-6m",
+    "not-closest>1e-3m",
+    "not-closest:nan-distance",
+    "t-out-of-range",
+    "t-nan",
+];
+
+/// what one line (one or several library-made helices, each with its reported t values) amounts to
+#[derive(Default)]
+struct Tally {
+    /// helix parameters of every track the library produced, in the order it produced them (the case line's trailer)
+    hps: Vec<[f64; 6]>,
+    /// first oracle failure on a track of the domain
+    fail: Option<String>,
+    /// bound violated by the first track outside the domain
+    skip: Option<&'static str>,
+    classes: Vec<String>,
+    /// a track of the domain was produced and checked
+    checked: bool,
+}
+
+impl Tally {
+    /// one library-made helix with the (t, point) pairs the library reports for it
+    fn track(&mut self, hp: [f64; 6], ts: &[(f64, SpacePoint, &'static str)], in_name: &str) {
+        self.hps.push(hp);
+        match domain_bound(hp) {
+            Some(b) => {
+                // not a helix of the quantifier (e.g. the fit of nearly collinear points: enormous or negative
+                // radius).  Observation `skipped out-of-domain <bound>`; the oracle is still run, for the label only.
+                if self.skip.is_none() {
+                    self.skip = Some(b);
+                }
+                if b == "nonfinite-params" {
+                    self.classes.push(format!("out-of-domain:{b}"));
+                    return;
+                }
+                let mut worst = (0u8, 0.0f64);
+                for (t, p, _) in ts {
+                    let e = excess_rank(verdict(hp, *p, *t));
+                    if e.0 > worst.0 || (e.0 == worst.0 && e.1 > worst.1) {
+                        worst = e;
+                    }
+                }
+                if std::env::var_os("C16_EXCESS_LOG").is_some() {
+                    // exploration aid: stderr only, never a label or an observation
+                    eprintln!("c16-excess {b} {} {:e} r={:e}", EXCESS_CLASS[worst.0 as usize], worst.1, hp[3]);
+                }
+                self.classes.push(format!("out-of-domain:{b}:{}", EXCESS_CLASS[worst.0 as usize]));
+            }
+            None => {
+                self.checked = true;
+                let mut interior = false;
+                for (t, p, which) in ts {
+                    let v = verdict(hp, *p, *t);
+                    interior |= matches!(v, Verdict::Interior { .. });
+                    let o = verdict_obs(v, *t);
+                    if o != "holds" {
+                        if self.fail.is_none() {
+                            let ps: Vec<String> = hp.iter().map(|x| bits(*x)).collect();
+                            self.fail = Some(format!("{o} at {which} helix={}", ps.join(",")));
+                        }
+                        self.classes.push("fail".to_string());
+                        return;
+                    }
+                }
+                self.classes.push(format!("{in_name}:{}", if interior { "t-interior" } else { "t-at-pi" }));
+            }
+        }
+    }
+    /// `fails` wins over `skipped` wins over `holds`
+    fn obs(&self) -> String {
+        match (&self.fail, self.skip) {
+            (Some(f), _) => f.clone(),
+            (None, Some(b)) => format!("skipped out-of-domain {b}"),
+            (None, None) => "holds".to_string(),
+        }
+    }
+    fn label(&self, empty: &str) -> String {
+        let mut c = self.classes.clone();
+        c.sort();
+        c.dedup();
+        if c.is_empty() {
+            empty.to_string()
+        } else {
+            c.join("+")
+        }
+    }
+    /// ` | <k> <x0 y0 z0 r phi0 h>*k`
+    fn trailer(&self) -> String {
+        let mut s = format!(" | {}", self.hps.len());
+        for hp in &self.hps {
+            for x in hp {
+                s.push(' ');
+                s.push_str(&bits(*x));
+            }
+        }
+        s
+    }
+}
+
+fn panicked() -> Tally {
+    Tally { fail: Some("fails panic".to_string()), classes: vec!["panic".to_string()], ..Default::default() }
 }
 
 /// t_inner / t_outer of one fitted cluster against its innermost / outermost point
-fn check_cluster(sps: &[SpacePoint]) -> (String, &'static str) {
+fn check_cluster(sps: &[SpacePoint], tally: &mut Tally) {
     // three_template_points: minmax_by_key(r): first minimal element, last maximal element
     let mut first = 0;
     let mut last = 0;
@@ -208,82 +399,71 @@ fn check_cluster(sps: &[SpacePoint]) -> (String, &'static str) {
         }
     }
     match Track::try_from(Cluster::verif_from_points(sps.to_vec())) {
-        Err(_) => ("holds".to_string(), "noinit"),
-        Ok(tr) => {
-            let hp = tr.verif_params();
-            if !hp.iter().all(|x| x.is_finite()) {
-                return ("holds".to_string(), "nonfinite-params(C14)");
-            }
-            if !in_domain(hp) {
-                // e.g. the fit of (nearly) collinear points is a helix of enormous radius: not a helix of the
-                // quantifier of C16 (centre within +-3 m, radius 0.03-5 m, |pitch| <= 1e2 m)
-                return ("holds".to_string(), domain_class(hp));
-            }
-            for (t, p, which) in [(tr.t_inner(), sps[first], "t_inner"), (tr.t_outer(), sps[last], "t_outer")] {
-                let o = oracle_t(hp, p, t);
-                if o != "holds" {
-                    let ps: Vec<String> = hp.iter().map(|x| bits(*x)).collect();
-                    return (format!("{o} at {which} helix={}", ps.join(",")), "fail");
-                }
-            }
-            ("holds".to_string(), "track")
-        }
+        Err(_) => tally.classes.push("noinit".to_string()),
+        Ok(tr) => tally.track(
+            tr.verif_params(),
+            &[(tr.t_inner(), sps[first], "t_inner"), (tr.t_outer(), sps[last], "t_outer")],
+            "track",
+        ),
     }
 }
 
 /// relkt: the point set is the cluster (hook Cluster::verif_from_points)
-fn oracle_track(pts: Vec<P3>) -> (String, &'static str) {
-    let r = catch(move || check_cluster(&points_of(&pts)));
-    r.unwrap_or_else(|| ("fails panic".to_string(), "panic"))
+fn oracle_track(pts: Vec<P3>) -> Tally {
+    let r = catch(move || {
+        let mut t = Tally::default();
+        check_cluster(&points_of(&pts), &mut t);
+        t
+    });
+    r.unwrap_or_else(panicked)
 }
 
 /// relkc: hook-free: the clusters are those cluster_spacepoints finds in the point set
-fn oracle_clusters(pts: Vec<P3>) -> (String, String) {
+fn oracle_clusters(pts: Vec<P3>) -> Tally {
     let r = catch(move || {
         let res = cluster_spacepoints(points_of(&pts));
-        let mut classes: Vec<&'static str> = Vec::new();
+        let mut t = Tally::default();
         for c in res.clusters {
             let sps: Vec<SpacePoint> = c.iter().copied().collect();
-            let (o, class) = check_cluster(&sps);
-            if o != "holds" {
-                return (o, "fail".to_string());
-            }
-            classes.push(class);
+            check_cluster(&sps, &mut t);
         }
-        classes.sort();
-        classes.dedup();
-        ("holds".to_string(), if classes.is_empty() { "no-cluster".to_string() } else { classes.join("+") })
+        t
     });
-    r.unwrap_or_else(|| ("fails panic".to_string(), "panic".to_string()))
+    r.unwrap_or_else(panicked)
 }
 
 /// the t reported with every track of the primary vertex (public API)
-fn oracle_vertex(trs: Vec<[f64; 8]>) -> (String, &'static str) {
+fn oracle_vertex(trs: Vec<[f64; 8]>) -> Tally {
     let r = catch(move || {
         let tracks: Vec<Track> = trs
             .iter()
             .map(|p| Track::verif_from_params([p[0], p[1], p[2], p[3], p[4], p[5]], p[6], p[7]))
             .collect();
         let res = find_vertices(tracks);
-        match res.primary {
-            None => ("holds".to_string(), "no-primary"),
-            Some(v) => {
-                let (x, y, z) = (v.position.x, v.position.y, v.position.z);
-                let p = SpacePoint { r: x.hypot(y), phi: y.atan2(x), z };
-                for (tr, t) in &v.tracks {
-                    if !in_domain(tr.verif_params()) {
-                        continue;
-                    }
-                    let o = oracle_t(tr.verif_params(), p, *t);
-                    if o != "holds" {
-                        return (o, "fail");
-                    }
-                }
-                ("holds".to_string(), "primary")
+        let mut tally = Tally::default();
+        if let Some(v) = res.primary {
+            let (x, y, z) = (v.position.x, v.position.y, v.position.z);
+            let p = SpacePoint { r: x.hypot(y), phi: y.atan2(x), z };
+            for (tr, t) in &v.tracks {
+                tally.track(tr.verif_params(), &[(*t, p, "t_vertex")], "primary");
             }
         }
+        tally
     });
-    r.unwrap_or_else(|| ("fails panic".to_string(), "panic"))
+    r.unwrap_or_else(panicked)
+}
+
+/// replay: the helices are RE-COMPUTED from the payload; a trailer that is not bit for bit what the library produces
+/// now is a failure (a change of the fit or of the vertex finder cannot hide behind a stale trailer)
+fn replay_obs(t: &Tally, trailer: &[&str]) -> String {
+    if t.fail.as_deref() == Some("fails panic") && t.hps.is_empty() {
+        return "fails panic".to_string();
+    }
+    let now = t.trailer();
+    if now != format!(" | {}", trailer.join(" ")) {
+        return "fails helix-params-differ-from-case-line".to_string();
+    }
+    t.obs()
 }
 
 pub fn observe_line(line: &str) -> Option<String> {
@@ -304,22 +484,25 @@ pub fn observe_line(line: &str) -> Option<String> {
         let v: Vec<f64> = f[1..].iter().map(|s| unbits(s)).collect::<Option<Vec<_>>>()?;
         return Some(oracle([v[0], v[1], v[2], v[3], v[4], v[5]], [v[6], v[7], v[8]]));
     }
-    if f[0] == "relkt" || f[0] == "relkc" {
+    if f[0] == "relkt" || f[0] == "relkc" || f[0] == "relkv" {
+        // <tag> <n> <payload: w floats per item>*n | <k> <x0 y0 z0 r phi0 h>*k
+        let w = if f[0] == "relkv" { 8 } else { 3 };
         let n: usize = f.get(1)?.parse().ok()?;
-        if f.len() != 2 + 3 * n {
+        let bar = 2 + w * n;
+        if f.len() < bar + 2 || f[bar] != "|" {
             return None;
         }
-        let v = parse_floats(&f[2..])?;
-        let pts: Vec<P3> = v.chunks(3).map(|c| [c[0], c[1], c[2]]).collect();
-        return Some(if f[0] == "relkt" { oracle_track(pts).0 } else { oracle_clusters(pts).0 });
-    }
-    if f[0] == "relkv" {
-        let n: usize = f.get(1)?.parse().ok()?;
-        if f.len() != 2 + 8 * n {
+        let k: usize = f[bar + 1].parse().ok()?;
+        if f.len() != bar + 2 + 6 * k {
             return None;
         }
-        let v = parse_floats(&f[2..])?;
-        return Some(oracle_vertex(v.chunks(8).map(|c| [c[0], c[1], c[2], c[3], c[4], c[5], c[6], c[7]]).collect()).0);
+        let v = parse_floats(&f[2..bar])?;
+        let tally = match f[0] {
+            "relkt" => oracle_track(v.chunks(3).map(|c| [c[0], c[1], c[2]]).collect()),
+            "relkc" => oracle_clusters(v.chunks(3).map(|c| [c[0], c[1], c[2]]).collect()),
+            _ => oracle_vertex(v.chunks(8).map(|c| [c[0], c[1], c[2], c[3], c[4], c[5], c[6], c[7]]).collect()),
+        };
+        return Some(replay_obs(&tally, &f[bar + 1..]));
     }
     None
 }
@@ -490,6 +673,37 @@ fn critical(r: &mut Rng) -> ([f64; 6], [f64; 3]) {
     (hp, cyl(hp[0] + rho * psi.cos(), hp[1] + rho * psi.sin(), z))
 }
 
+/// points whose TRUE closest-approach parameter is meant to lie strictly inside (-pi, pi): the helix point at
+/// t0 in (-3, 3) displaced by at most 1 cm (along the principal normal, or in a random direction), with a z offset
+/// of less than half a pitch so that the nearest revolution is the one of t0.  The caller labels the case by the
+/// CHECKED fact (brute-force minimiser strictly interior), not by this intent.
+fn interior(r: &mut Rng) -> ([f64; 6], [f64; 3], String) {
+    let (hp, hl) = helix(r);
+    let t0 = uniform(r, -3.0, 3.0);
+    let a = at(hp, t0);
+    let scale = match r.below(6) {
+        0 => 0.0,
+        1 => log_uniform(r, 1e-18, 1e-9),
+        _ => log_uniform(r, 1e-9, 1e-2),
+    };
+    let (d, dl) = match r.below(3) {
+        0 => {
+            // principal normal (radial, in the plane of the circle): t0 stays the minimiser
+            let (nx, ny) = (a[0] - hp[0], a[1] - hp[1]);
+            let nn = nx.hypot(ny).max(1e-300);
+            let sg = sign(r);
+            ([sg * scale * nx / nn, sg * scale * ny / nn, 0.0], "normal")
+        }
+        _ => {
+            let (ux, uy, uz) = (uniform(r, -1.0, 1.0), uniform(r, -1.0, 1.0), uniform(r, -1.0, 1.0));
+            let nn = (ux * ux + uy * uy + uz * uz).sqrt().max(1e-300);
+            let lim = 0.45 * hp[5].abs();
+            ([scale * ux / nn, scale * uy / nn, (scale * uz / nn).clamp(-lim, lim)], "anydir")
+        }
+    };
+    (hp, cyl(a[0] + d[0], a[1] + d[1], a[2] + d[2]), format!("{hl}/{dl}"))
+}
+
 fn case_kt(tol: f64, iters: usize, hp: [f64; 6], sp: [f64; 3], tq: f64) -> String {
     let mut s = format!("kt {} {}", bits(tol), iters);
     for x in hp.iter().chain(sp.iter()) {
@@ -545,8 +759,28 @@ pub fn run(tier: &str, seed: u64, s: &mut Sink) {
             let (sp, pl) = point(&mut r, hp);
             (hp, sp, format!("rel:{hl}/{pl}"))
         };
-        let obs = oracle(hp, sp);
-        s.put(&case_rel("relk", hp, sp), &obs, &label, hp[5].abs() >= f64::EPSILON);
+        let (obs, v) = oracle_full(hp, sp);
+        let tc = v.map(t_class).unwrap_or("panic");
+        s.put(&case_rel("relk", hp, sp), &obs, &format!("{label}:{tc}"), hp[5].abs() >= f64::EPSILON);
+    }
+    // relk cases whose true minimiser is strictly inside (-pi, pi) (the minimality clause of the property applies
+    // only there): a stream of its own, so that the cases above are those of the earlier versions of this check
+    let mut ri = Rng::new(seed ^ 0xC16_0001);
+    let n_int = if tier == "thorough" { 80_000 } else { 3_500 };
+    for _ in 0..n_int {
+        let (hp, sp, gl) = interior(&mut ri);
+        let (obs, v) = oracle_full(hp, sp);
+        let tc = v.map(t_class).unwrap_or("panic");
+        // the checked fact: the brute-force minimiser over [-pi, pi] is strictly interior
+        let tb = match v {
+            Some(Verdict::Interior { tb, .. }) => Some(tb),
+            _ => catch(move || {
+                let p = spoint(sp[0], sp[1], sp[2]);
+                brute_min(hp, [p.x().get::<meter>(), p.y().get::<meter>(), p.z.get::<meter>()]).0
+            }),
+        };
+        let class = if tb.map_or(false, |t| t.abs() < 3.1) { "interior" } else { "interior-not-confirmed" };
+        s.put(&case_rel("relk", hp, sp), &obs, &format!("rel:{class}/{gl}:{tc}"), hp[5].abs() >= f64::EPSILON);
     }
     // the same property where the library reports t through its public API
     let (n_trk, n_vtx) = if tier == "thorough" { (3000, 3000) } else { (250, 300) };
@@ -557,14 +791,24 @@ pub fn run(tier: &str, seed: u64, s: &mut Sink) {
             continue;
         }
         pts.truncate(60);
-        let (obs, class) = oracle_track(pts.clone());
-        s.put(&case_points("relkt", &pts), &obs, &format!("rel-track:{fam}:{class}"), class == "track");
+        let t = oracle_track(pts.clone());
+        s.put(
+            &format!("{}{}", case_points("relkt", &pts), t.trailer()),
+            &t.obs(),
+            &format!("rel-track:{fam}:{}", t.label("no-track")),
+            t.checked,
+        );
     }
     for _ in 0..n_trk / 2 {
         let n = r.range(13, if tier == "thorough" { 400 } else { 120 }) as usize;
         let (pts, fam) = family(&mut r, n);
-        let (obs, class) = oracle_clusters(pts.clone());
-        s.put(&case_points("relkc", &pts), &obs, &format!("rel-clusters:{fam}:{class}"), class.contains("track"));
+        let t = oracle_clusters(pts.clone());
+        s.put(
+            &format!("{}{}", case_points("relkc", &pts), t.trailer()),
+            &t.obs(),
+            &format!("rel-clusters:{fam}:{}", t.label("no-cluster")),
+            t.checked,
+        );
     }
     for _ in 0..n_vtx {
         let k = r.range(2, 8) as usize;
@@ -578,7 +822,7 @@ pub fn run(tier: &str, seed: u64, s: &mut Sink) {
             t[2] = (t[2] - zb + shared_z + uniform(&mut r, -0.02, 0.02)).clamp(-3.0, 3.0);
             trs.push(t);
         }
-        let (obs, class) = oracle_vertex(trs.clone());
+        let t = oracle_vertex(trs.clone());
         let mut c = format!("relkv {}", trs.len());
         for t in &trs {
             for x in t {
@@ -586,6 +830,7 @@ pub fn run(tier: &str, seed: u64, s: &mut Sink) {
                 c.push_str(&bits(*x));
             }
         }
-        s.put(&c, &obs, &format!("rel-vertex:{class}"), class == "primary");
+        c.push_str(&t.trailer());
+        s.put(&c, &t.obs(), &format!("rel-vertex:{}", t.label("no-primary")), t.checked);
     }
 }
